@@ -34,7 +34,17 @@ def _objfill(shape, val):
     return out
 
 
+def _rd(dtype):
+    """undo the module-global float/int injection in dtype arguments"""
+    if dtype is sym_float:
+        return float
+    if dtype is sym_int:
+        return int
+    return dtype
+
+
 def _dtype_is_numeric_float(dtype):
+    dtype = _rd(dtype)
     if dtype is None:
         return True
     if dtype is object:
@@ -47,6 +57,7 @@ def _dtype_is_numeric_float(dtype):
 
 
 def _const(dtype, v):
+    dtype = _rd(dtype)
     if dtype is not None and _np.dtype(dtype).kind == 'c':
         return SComplex(v, 0)
     return SReal(v)
@@ -217,18 +228,18 @@ class SymNP(types.ModuleType):
     def zeros(self, shape, dtype=None, **kw):
         if active() and _dtype_is_numeric_float(dtype):
             return _objfill(shape, _const(dtype, 0))
-        return _np.zeros(shape, dtype=dtype if dtype is not None else float,
+        return _np.zeros(shape, dtype=_rd(dtype) if dtype is not None else float,
                          **kw)
 
     def ones(self, shape, dtype=None, **kw):
         if active() and _dtype_is_numeric_float(dtype):
             return _objfill(shape, _const(dtype, 1))
-        return _np.ones(shape, dtype=dtype, **kw)
+        return _np.ones(shape, dtype=_rd(dtype), **kw)
 
     def empty(self, shape, dtype=None, **kw):
         if active() and _dtype_is_numeric_float(dtype):
             return _objfill(shape, _const(dtype, 0))
-        return _np.empty(shape, dtype=dtype if dtype is not None else float,
+        return _np.empty(shape, dtype=_rd(dtype) if dtype is not None else float,
                          **kw)
 
     def full(self, shape, fill_value, dtype=None, **kw):
@@ -238,7 +249,7 @@ class SymNP(types.ModuleType):
             v = fill_value if isinstance(fill_value,
                                          PROXY) else _const(dtype, 0) + fill_value
             return _objfill(shape, v)
-        return _np.full(shape, fill_value, dtype=dtype, **kw)
+        return _np.full(shape, fill_value, dtype=_rd(dtype), **kw)
 
     def zeros_like(self, a, dtype=None, **kw):
         if active() and (is_sym(a) or (dtype is None and _np.asarray(a).dtype.kind in 'fc')
@@ -246,14 +257,14 @@ class SymNP(types.ModuleType):
             d = dtype if dtype is not None else (
                 complex if _anycomplex(a) else float)
             return _objfill(_np.shape(a), _const(d, 0))
-        return _np.zeros_like(a, dtype=dtype, **kw)
+        return _np.zeros_like(a, dtype=_rd(dtype), **kw)
 
     def ones_like(self, a, dtype=None, **kw):
         if active() and (is_sym(a) or _np.asarray(a).dtype.kind in 'fc'):
             d = dtype if dtype is not None else (
                 complex if _anycomplex(a) else float)
             return _objfill(_np.shape(a), _const(d, 1))
-        return _np.ones_like(a, dtype=dtype, **kw)
+        return _np.ones_like(a, dtype=_rd(dtype), **kw)
 
     def empty_like(self, a, dtype=None, **kw):
         return self.zeros_like(a, dtype=dtype, **kw)
@@ -267,7 +278,7 @@ class SymNP(types.ModuleType):
                 if 0 <= i + k < M:
                     out[i, i + k] = one
             return out
-        return _np.eye(N, M, k, dtype, **kw)
+        return _np.eye(N, M, k, _rd(dtype), **kw)
 
     def identity(self, n, dtype=None):
         return self.eye(n, dtype=dtype if dtype is not None else float)
@@ -453,12 +464,12 @@ class SymNP(types.ModuleType):
     def array(self, obj, dtype=None, **kw):
         if active() and is_sym(obj) and _dtype_is_numeric_float(dtype):
             return _np.array(obj, dtype=object, **kw)
-        return _np.array(obj, dtype=dtype, **kw)
+        return _np.array(obj, dtype=_rd(dtype), **kw)
 
     def asarray(self, obj, dtype=None, **kw):
         if active() and is_sym(obj) and _dtype_is_numeric_float(dtype):
             return _np.asarray(obj, dtype=object, **kw)
-        return _np.asarray(obj, dtype=dtype, **kw)
+        return _np.asarray(obj, dtype=_rd(dtype), **kw)
 
 
 def _anycomplex(a):
